@@ -458,3 +458,24 @@ class WriteVcpuField_word:
                 and len(_trace[1]) == 5                                  # (through the monitor: no core argument)
                 and seq_len(d) == 4 and all(select(d, i) == (value // (256 ** i)) % 256 for i in range(4)))
 
+
+
+@contract("rig/machine_control/machine_controller.py::MachineController.read_across_link@seq:0:2")
+class ReadAcrossLinkGuards:
+    """the two guards at the head of read_across_link: a link read is a word access, so it is refused unless BOTH the address
+    and the length are word-aligned (what the extraction drops: the loop that issues the reads - same shape as
+    write_across_link's, with a memoryview over a bytearray that the engine does not model)"""
+    properties = ("C07",)
+    params = dict(address=TInt(0, 2 ** 32 - 1), length_bytes=TInt(0, None))
+    fragment_result = ()
+    fragment_head = 'raise ValueError("Addresses must be word-aligned.")'
+    raises = {"ValueError": None}
+
+    def native(address):
+        raise __import__("pyvc.replay", fromlist=["OutsideHarness"]).OutsideHarness()
+
+    def raises_ValueError(address, length_bytes):
+        return address % 4 != 0 or length_bytes % 4 != 0
+
+    def ensures_passes_only_when_both_are_word_aligned(address, length_bytes):
+        return address % 4 == 0 and length_bytes % 4 == 0
